@@ -38,16 +38,19 @@ def _dedup(vals):
 
 def numeric_menu(spec, field, level):
     """Values for numeric field `field`: read by binning nodes and/or numeric leaves."""
-    edges, has_leaf, sparse = [], False, False
+    edges, has_leaf, sparse, binned = [], False, False, False
     for _, _, n in S.node_ids(spec):
         if n.get("q") != field:
             continue
         if n["t"] in S.BINNING:
             edges += _edges(n)
+            binned = True
             sparse = sparse or n["t"] == "SparselyBin"
         elif n["t"] in S.LEAF_TYPES:
             has_leaf = True
     edges = sorted(set(edges))
+    if binned and not edges:
+        edges = [0.0]  # (a binning node without any threshold still reads the field)
     vals = []
     if edges:
         if level == "core":
